@@ -42,8 +42,8 @@ def classify_rc(rc):
         return 'pass'
     if rc == 1:
         return 'fail'
-    if rc == -999:
-        return 'timeout'
+    if rc in (-999, -9, 137):
+        return 'timeout'  # time cap, or killed from outside (memory / time limit of the environment): load noise, inconclusive
     if rc == 3:
         return 'harness'
     return 'crash'
